@@ -109,7 +109,23 @@ def one(job):
         shutil.rmtree(tmp, ignore_errors=True)
 
 
+def mk(qual):
+    parts = qual.split('.')
+    for k in range(len(parts), 0, -1):
+        rel = os.path.join(*parts[:k]) + '.py'
+        if os.path.isfile(os.path.join(ROOT, rel)):
+            break
+    new = renamed_source(os.path.join(ROOT, rel), parts[k:])
+    tmp = tempfile.mkdtemp(prefix='sa_rnk_')
+    shutil.copytree(os.path.join(ROOT, 'prysm'), os.path.join(tmp, 'prysm'), ignore=shutil.ignore_patterns('__pycache__', '*.pyc'))
+    open(os.path.join(tmp, rel), 'w').write(new)
+    print(tmp)
+
+
 if __name__ == '__main__':
+    if sys.argv[1:2] == ['--mk']:
+        mk(sys.argv[2])
+        sys.exit(0)
     props = sys.argv[1:] or sorted(f[:-5] for f in os.listdir(os.path.join(HERE, 'evidence')) if f.endswith('.json'))
     jobs = []
     for p in props:
